@@ -92,7 +92,7 @@ def mt_element(repo, res):
     "element_interface.create_quadrature, interpreted with basix.polyset_superset modelled as the join of "
     "standard < macroedge: whatever the order of the argument elements, the polyset family given to basix.make_quadrature is "
     "the join over all of them, and cell type, degree and scheme are the ones requested; the vertex rule is one point of weight 1",
-    min_instances=6,
+    min_instances=7,
 )
 def quad_family(repo, res):
     m = repo.mod("ffcx.element_interface")
@@ -110,7 +110,7 @@ def quad_family(repo, res):
 
         def make_quadrature(ct, degree, rule=None, polyset_type=None):
             calls.append((ct, degree, rule, polyset_type))
-            return ("pts", "wts")
+            return (f"pts[{ct},{degree},{rule},{polyset_type}]", "wts")
 
         it.overrides["basix.make_quadrature"] = _PyCall(make_quadrature)
         return it
@@ -136,6 +136,26 @@ def quad_family(repo, res):
                      "plain Gauss-Jacobi rule would replace the composite macro rule", m.line(f.node))
         if (ct, deg, rl) != ("CellType.triangle", 3, "QuadratureType.GLL"):
             res.fail(key, f"{label}: basix is asked for (cell, degree, scheme) = {(ct, deg, rl)}, requested (triangle, 3, GLL)", m.line(f.node))
+    # history: the rule returned for a request depends on that request only (no memo keyed without the scheme / family)
+    key = f"{f.key}:history-independent"
+    res.ob(key)
+    it = mk()
+    seq = [("triangle", 2, "GLL", [S]), ("triangle", 2, "default", [S]), ("triangle", 2, "default", [M]), ("interval", 2, "default", [S]), ("triangle", 3, "default", [S])]
+    try:
+        outs = [it.call_f(f, [c_, d_, r_, e_]) for c_, d_, r_, e_ in seq]
+    except Raised as e:
+        res.fail(key, f"create_quadrature raises ({e.what}) in a sequence of requests", m.line(f.node))
+        outs = None
+    if outs is not None:
+        for (c_, d_, r_, e_), o in zip(seq, outs):
+            fam = "PolysetType.macroedge" if M in e_ else "PolysetType.standard"
+            want = f"pts[CellType.{c_},{d_},QuadratureType.{r_},{fam}]"
+            got = o[0] if isinstance(o, tuple) else o
+            if got != want:
+                res.fail(key, f"after earlier requests, create_quadrature({c_}, {d_}, {r_}, ...) returns the rule {got} instead of {want}: a memo that ignores part of "
+                         "the request makes u*v*dx(degree=2) + u*v*dx(scheme='GLL', degree=2) use one rule twice, and results depend on what was compiled before",
+                         m.line(f.node))
+                break
 
 
 @rule(
